@@ -149,6 +149,20 @@ func buildReplay() (string, error) {
 }
 
 // replayBatch runs the candidates natively and returns one result per candidate.
+// baselineKey: harness name and parameters in a canonical order.
+func baselineKey(hs HarnessSpec) string {
+	var ks []string
+	for k := range hs.Params {
+		ks = append(ks, k)
+	}
+	sort.Strings(ks)
+	key := hs.Name
+	for _, k := range ks {
+		key += fmt.Sprintf(",%s=%d", k, hs.Params[k])
+	}
+	return key
+}
+
 // cappedBuffer keeps at most max bytes and silently drops what follows.
 type cappedBuffer struct {
 	bytes.Buffer
@@ -365,6 +379,8 @@ func cmdCheck(args []string) int {
 		budget = 10 * time.Minute
 	}
 	deadline := t0.Add(budget)
+	baselinePaths := map[string]int{}
+	readJSON(filepath.Join(verifDir, "baseline_paths.json"), &baselinePaths)
 
 	// a harness name with '*' stands for every matching harness function (generated families)
 	var specs []HarnessSpec
@@ -410,6 +426,12 @@ func cmdCheck(args []string) int {
 			return 2
 		}
 		run := &HarnessRun{HarnessSpec: hs, fn: fn}
+		// path cap from the last clean run on the unchanged tree (baseline_paths.json,
+		// written by tools/update_baseline.py): a changed tree that multiplies the
+		// number of paths of a harness by more than 20 is cut there (truncated run)
+		if n, ok := baselinePaths[baselineKey(hs)]; ok && run.MaxPaths == 0 {
+			run.MaxPaths = 20*n + 20000
+		}
 		// one harness gets at most a third of the tier budget: on a changed tree a
 		// harness can run into an unbounded path tree; what it found until then is
 		// reported, the rest of the check still runs (the run is marked truncated)
